@@ -15,7 +15,7 @@
    NOT modelled (stays with the statistical test of vlib/c20.py): float64 rounding of the
    keys, math.Log, the generator (math/rand Float64 is uniform on a grid of 2^53 points and
    can return 0), ties between keys (a null set here, possible on the grid). *)
-Require Import Reals.
+Require Import Reals ZArith.
 From Coquelicot Require Import Coquelicot.
 Require Import List.
 Import ListNotations.
@@ -30,6 +30,17 @@ Definition sp_gumbel_key (u w : R) : R := ln w - ln (- ln u).
 Definition sp_wins (us ws : list R) (i : nat) : Prop :=
   forall j, (j < length ws)%nat -> j <> i ->
     sp_key (nth j us 0) (nth j ws 0) < sp_key (nth i us 0) (nth i ws 0).
+
+(* the integer ranks handed to the executable model (models/Sample.v takes the key
+   sequence as key : nat -> Z) order the items exactly as the ideal keys do *)
+Definition sp_ranks_agree (key : nat -> Z) (us ws : list R) : Prop :=
+  forall a b, (a < length ws)%nat -> (b < length ws)%nat ->
+    ((key a < key b)%Z <->
+     sp_key (nth a us 0) (nth a ws 0) < sp_key (nth b us 0) (nth b ws 0)).
+
+Definition sp_no_ties (us ws : list R) : Prop :=
+  forall a b, (a < length ws)%nat -> (b < length ws)%nat -> a <> b ->
+    sp_key (nth a us 0) (nth a ws 0) <> sp_key (nth b us 0) (nth b ws 0).
 
 Definition sp_pos (ws : list R) : Prop := Forall (fun w => 0 < w) ws.
 Definition sp_unit (us : list R) : Prop := Forall (fun u => 0 < u < 1) us.
